@@ -467,7 +467,7 @@ PROPS["C16"] = {
     "harness": ["c16"],
     "both_profiles": True,
     "t1_facts": ["coe:"],
-    "known_keys_expected": ["c16/sdo-info-endless", "c16/segment-endless"],
+    "known_keys_expected": [],
     "modelled": "mailbox/coe/mod.rs: wait_for_mailboxes (stale drain, 10 rounds), wait_for_mailbox_response, mailbox_write_read "
                 "(HeadersRaw triage: assert_ne!, emergency, abort, type/index/sub-index validation, R::unpack, trim_front), "
                 "send_sdo_info_service (fragment loop, length - 8, response[..length], 0x1fffe buffer), sdo_write, sdo_write_array, "
@@ -493,29 +493,28 @@ PROPS["C16"] = {
         "every register / mailbox datagram is answered (loss, PDU timeouts, working-counter errors are C06/C11); a device that does "
         "not answer a mailbox request is modelled (response timeout)",
         "the device's IN mailbox is free when the request is written (the wait loop for it is not modelled)",
-        "coe_total is proved only for devices that never send a reply of the classes P1 (service nibble = Emergency while the "
-        "assert_ne! is compiled in), P2 (segment reply with mailbox length < 3, checked builds), P3/P4 (SDO-info reply with length "
-        "field < 8 or > data present; hypothesis conservative by 2 bytes for continuation fragments): known findings",
-        "info_terminates / segments_terminate bound the reads only for devices whose accepted fragments carry >= 1 byte: known findings",
+        "coe_total, info_terminates and segments_terminate are unconditional since the repairs fix-c16-emergency, "
+        "fix-c16-segment-length, fix-c16-sdo-info-length, fix-c16-endless-loops (the former witnesses stay in the corpus and as "
+        "`*_fixed` theorems)",
         "usize is 64 bit; destination buffers are shorter than 2^64 - 65536 bytes (total_len + chunk_len cannot overflow)",
     ],
 }
 
 MANIFEST_TEXT["C16"] = {
     "text": "Theorems for an ARBITRARY device (any function from requests to lists of raw mailbox byte strings), any mailbox sizes, "
-            "any stale queue, both overflow-check profiles: coe_total_partial (all seven entry points return a value or an error "
-            "unless the device sends one of three exactly described reply classes; corollaries for every script of byte strings), "
-            "four coe_total_counterexample theorems (one per panic site), reads_inside_reply (trim_front views stay inside the reply; "
-            "the two functions holding the ReceivedPdu are functions of the reply bytes; no entry point depends on the bytes around "
-            "the reply in the frame buffer), info_buffer_bounded (<= 0x1fffe after every iteration), info_terminates (every read "
-            "consumes one message; <= 0x1fffe+1 reads if fragments carry data) with info_terminates_counterexample and "
-            "segments_terminate_partial/_counterexample (for every n a script keeps the loop running n rounds). Tied to the code by "
-            "regenerated enum tables / packed lengths / constants / source shapes and by diffing result, counter, reads, requests "
-            "against the real code on mutated, truncated, random and multi-message replies for mailboxes 6..1024 in both profiles.",
-    "note": "PARTIAL: the unconditional coe_total / info_terminates are false of the current code (known findings c16/emergency-assert, "
-            "c16/segment-length-underflow, c16/sdo-info-length, c16/sdo-info-endless, c16/segment-endless; each replayed on the real "
-            "code every run). Trusted: Lean kernel; the hand translation of coe/mod.rs incl. which operations can panic (validated by "
-            "catch_unwind on every generated case); the simulated ESC mailbox (ecverif::sim). PDU-level failures are out of scope.",
+            "any stale queue, both overflow-check profiles: coe_total (all seven entry points return a value or an error, "
+            "unconditionally; corollary for every script of byte strings), reads_inside_reply (trim_front views stay inside the "
+            "reply; the two functions holding the ReceivedPdu are functions of the reply bytes; no entry point depends on the bytes "
+            "around the reply in the frame buffer), info_buffer_bounded (<= 0x1fffe after every iteration), info_terminates (<= "
+            "0x1fffe+1 mailbox reads for ANY reply stream; every read consumes one message), segments_terminate (<= free bytes of "
+            "the destination + 1 segment requests for ANY device). The witnesses of the four former panic sites and two former "
+            "endless loops are theorems (`*_fixed`: errors now) and corpus cases. Tied to the code by regenerated enum tables / "
+            "packed lengths / constants / source shapes and by diffing result, counter, reads, requests against the real code on "
+            "mutated, truncated, random and multi-message replies for mailboxes 6..1024 in both profiles.",
+    "note": "Full proof on the repaired tree (fix-c16-emergency, fix-c16-segment-length, fix-c16-sdo-info-length, "
+            "fix-c16-endless-loops). Trusted: Lean kernel; the hand translation of coe/mod.rs incl. which operations can panic "
+            "(validated by catch_unwind on every generated case); the simulated ESC mailbox (ecverif::sim). PDU-level failures are "
+            "out of scope.",
     "technique": "Lean 4 proof (invariant over an arbitrary environment, induction over loops) + differential correspondence",
 }
 
@@ -794,7 +793,7 @@ PROPS["C15"] = {
         "(known findings c15/segment-response-scs0, c15/segment-data-offset, c15/segmented-initiate-data-ignored)",
         "normal-mode theorems need destination buffer >= object (T::buffer().len(): N bytes for [u16;N], known finding c15/word-array-buffer)",
         "sdo_write_delivers / array_helpers_consistent: values of 1..4 bytes, plain (not complete-access) downloads, at most 10 stale messages",
-        "emergency_reported has no true instance on the current code (known finding c15/emergency-not-reported)",
+        "emergency_reported holds since fix-c16-emergency (any code / register / data, emergency queued before the response)",
     ],
 }
 
@@ -806,10 +805,10 @@ MANIFEST_TEXT["C15"] = {
             "round-trips, count in sub-index 0; by induction over the elements), abort_reported (read and write, any code incl. "
             "unknown object), wrong_object_reported, too_long_reported (normal and segmented, any initiate payload), counter_cycles "
             "(k-th request of any entry point carries (c0-1+k) mod 7 + 1, any device). Counterexample theorems for every clause that "
-            "fails. Tied to the code by the C16 correspondence of the same model plus honest-server runs of the real code against two "
+            "fails; emergency_reported (any error code, true since fix-c16-emergency). Tied to the code by the C16 correspondence of the same model plus honest-server runs of the real code against two "
             "independent servers.",
-    "note": "PARTIAL: segmented uploads never work on the current code (three independent defects), emergencies are never reported "
-            "as such, [u16;N] destinations are refused in normal mode, zero-length writes are sent as 4 bytes — six known findings, "
+    "note": "PARTIAL: segmented uploads never work on the current code (three independent defects), [u16;N] destinations are "
+            "refused in normal mode, zero-length writes are sent as 4 bytes — five known findings, "
             "each with a counterexample theorem and a replayed witness. Trusted: Lean kernel; hand translation (validated by C15+C16 "
             "correspondence); the server specification (reading of ETG1000.6 cross-checked with SOEM/IgH; the simulator's server and "
             "a second reference server agree with it on all generated cases).",
@@ -930,8 +929,8 @@ PROPS["C13"] = {
     "harness": ["c13"],
     "both_profiles": True,
     "t1_facts": ["eeprom:"],
-    "known_keys_expected": ["c13/panic-category-add", "c13/panic-category-mul", "c13/panic-new-mul", "c13/panic-new-add",
-                            "c13/panic-size-add", "c13/panic-size-mul", "c13/panic-skip_ahead_bytes-add",
+    "known_keys_expected": ["c13/panic-new-mul", "c13/panic-new-add",
+                            "c13/panic-skip_ahead_bytes-add",
                             "c13/panic-read_byte-add"],  # c13/hang-category-walk shows in the release profile (thorough) only
     "modelled": "SubDeviceEeprom::{category, start_at, station_alias, size, identity, mailbox_config, general, sync_managers, "
                 "fmmus, fmmu_mappings, pdos, find_string, device_name, device_description, items}, CategoryIterator::{next, "
@@ -988,7 +987,7 @@ PROPS["C12"] = {
     "both_profiles": True,
     "t1_facts": ["eeprom:"],
     "known_keys_expected": ["c12/odd-length-truncated", "c12/range-beyond-64k", "c12/category-beyond-64k",
-                            "c12/size-overflow", "c12/find-string-one-past"],
+                            "c12/find-string-one-past"],
     "modelled": "EepromRange::{new, Read::read, read_byte, skip_ahead_bytes}, embedded-io-async read_exact, "
                 "SubDeviceEeprom::{start_at, category, items, find_string, sync_managers, fmmus, fmmu_mappings, pdos, "
                 "mailbox_config, general, identity, size, device_name, device_description}, the derived wire parsers of the SII "
